@@ -332,7 +332,8 @@ def builtin_diff_render(a, b, config):
 def diff_render_with_git(a, b, config):
     cmd = git_diff_print_cmd
     if not config.use_color:
-        cmd = cmd.replace(" --color-words", "")
+        # --no-color: git would colour anyway with color.ui = always
+        cmd = cmd.replace(" --color-words", " --no-color")
     elif not config.color_words:
         # Will do nothing if use_color is not True:
         cmd = cmd.replace("--color-words", "--color")
